@@ -11,6 +11,7 @@
 From Coq Require Import ZArith List Bool.
 From Flocq Require Import IEEE754.BinarySingleNaN.
 From CF Require Import Base.Mem Model.Tables Model.Prim Model.SimdApi Model.Kernels Model.Regs Model.Spec.
+From CF Require Import Model.TableSem Model.Exports Model.Safe Proofs.SafeSem Gen.GenExports Gen.GenSafe Gen.GenMacros Gen.GenDispatch.
 From CF Require Import Proofs.KernelBounds Proofs.ReduceCorrect Proofs.SpecLink Proofs.FloatSpecLink.
 Import ListNotations.
 
@@ -54,6 +55,57 @@ Theorem C02_f64 :
     length a = dims -> length res = dims -> (kernel_uses_b k = true -> length b = dims) ->
     meets (init_mem a b res) (run_kernel R float_math k dims v (init_mem a b res)) (spec_float k v a b).
 Proof. exact f64_export_meets_spec. Qed.
+
+
+(* Through the SAFE API, under every dispatch outcome: for every safe routine of the regenerated tables whose kernel is
+   one of these, both forms, every build configuration [bc], ARBITRARY outcomes [p] of the is_*_available predicates,
+   release and debug: if the call passes the wrapper's generated assert list then, whichever (non-NEON) slot [x] the
+   dispatch chain selects, the result meets the specification; [safe_fn_of], [select_chain], [run_safe] are the
+   semantics of the generated macro tables (Model/TableSem.v, Model/Safe.v). *)
+Theorem C02_safe_api_int :
+  forall s f bc p debug m sf k x,
+    In s safe_entries -> find_safe_macro safe_macros (s_macro s) = Some m -> safe_fn_of m f = Some sf ->
+    safe_kernel s = Some k -> select_chain dispatch_chain bc p (supplied_of sf) = Some x -> x <> SNeon ->
+    forall DIMS v a b res,
+      is_float (s_ty s) = false -> In k arith_kernels ->
+      let l := {| len_a := length a; len_b := length b; len_r := length res; len_dims := DIMS |} in
+      asserts_pass l (sf_asserts sf) = true ->
+      (debug = true -> asserts_pass l (sf_debug_asserts sf) = true) ->
+      Forall (in_range (width (s_ty s))) a -> in_range (width (s_ty s)) v ->
+      (kernel_uses_b k = true -> Forall (in_range (width (s_ty s))) b) ->
+      xmeets (run_safe dispatch_chain run_export_int exports safe_macros s f bc p debug DIMS v a b res)
+             (spec_int (is_signed (s_ty s)) (width (s_ty s)) k v a b).
+Proof.
+  intros s f bc p debug m sf k x Hs Hm Hsf Hk Hsel Hx DIMS v a b res Hty Hkin.
+  apply (safe_int_meets_spec s f bc p debug m sf k x Hs Hm Hsf Hk Hsel Hx DIMS v a b res Hty).
+  unfold arith_kernels in Hkin. unfold int_spec_kernels. cbn [In] in *. tauto.
+Qed.
+
+Theorem C02_safe_api_f32 :
+  forall s f bc p debug m sf k x,
+    In s safe_entries -> find_safe_macro safe_macros (s_macro s) = Some m -> safe_fn_of m f = Some sf ->
+    safe_kernel s = Some k -> select_chain dispatch_chain bc p (supplied_of sf) = Some x -> x <> SNeon ->
+    forall DIMS v a b res,
+      s_ty s = F32 -> In k arith_kernels ->
+      let l := {| len_a := length a; len_b := length b; len_r := length res; len_dims := DIMS |} in
+      asserts_pass l (sf_asserts sf) = true ->
+      (debug = true -> asserts_pass l (sf_debug_asserts sf) = true) ->
+      xmeets (run_safe dispatch_chain run_export_f32 exports safe_macros s f bc p debug DIMS v a b res)
+             (spec_float k v a b).
+Proof. exact safe_f32_meets_spec. Qed.
+
+Theorem C02_safe_api_f64 :
+  forall s f bc p debug m sf k x,
+    In s safe_entries -> find_safe_macro safe_macros (s_macro s) = Some m -> safe_fn_of m f = Some sf ->
+    safe_kernel s = Some k -> select_chain dispatch_chain bc p (supplied_of sf) = Some x -> x <> SNeon ->
+    forall DIMS v a b res,
+      s_ty s = F64 -> In k arith_kernels ->
+      let l := {| len_a := length a; len_b := length b; len_r := length res; len_dims := DIMS |} in
+      asserts_pass l (sf_asserts sf) = true ->
+      (debug = true -> asserts_pass l (sf_debug_asserts sf) = true) ->
+      xmeets (run_safe dispatch_chain run_export_f64 exports safe_macros s f bc p debug DIMS v a b res)
+             (spec_float k v a b).
+Proof. exact safe_f64_meets_spec. Qed.
 
 (* What the specification says, spelled out (so that the statement above cannot hide in a definition). *)
 Theorem C02_spec_reads :
